@@ -25,7 +25,9 @@ import json
 import multiprocessing
 import os
 import shutil
+import re
 import signal
+import time
 import traceback
 
 from harness import tlc
@@ -34,17 +36,22 @@ from harness.common import chunks
 PROPERTY = "C03"
 LEVEL = "exploration"
 
-VM_ACTIONS = ["Text", "Enter", "Raise", "ParamOut", "Leave", "Unwind", "Swallow"]
+VM_ACTIONS = ["Text", "Enter", "Raise", "ParamOut", "Leave", "LeaveArg", "Unwind", "Swallow", "UnwindMem", "CatchMem"]
+BLOCK = 100000
 
 VM_CFG = """SPECIFICATION Spec
 CONSTANTS
   NT = %(nt)d
   MaxBody = %(maxbody)d
   Limit = %(limit)d
+  Growth = %(growth)s
+  BlockSize = %(block)d
+  Cap = 262144
   SwallowDepth = %(swallow)d
   Decrement = %(dec)s
+  CapByName = %(capbyname)s
   Emit = %(emit)s
-INVARIANTS DepthBound CountIsDepth NoEscape MarksOK CounterRestored EmitRun
+INVARIANTS DepthBound CountIsDepth NoEscape BufsOK ArgBound CounterRestored EmitRun
 PROPERTIES SwallowShallow Terminates
 CHECK_DEADLOCK FALSE
 """
@@ -57,7 +64,9 @@ CONSTANTS
   Stride2 = %(stride2)d
   Stride = %(stride)d
   Phase = %(phase)d
+  NFormats = %(nformats)d
   MaxLex = %(maxlex)d
+  MaxDeepLex = %(maxdeep)d
   Emit = TRUE
 INVARIANTS TypeOK TwinLaw EmitCase
 PROPERTIES AllHanded
@@ -75,20 +84,54 @@ SHAPES = {
     "path": "Aa/Bb/Cc",
     "nested": "{{lc:ABC}}",
     "oversize": "x" * 270000 + "{{lc:Y}}",
+    # arithmetic reaching the edges of the number representation
+    "posinf": "1e308*10",
+    "neginf": "-1e200*1e200",
+    "nan": "1e308*10-1e308*10",
+    "zerotimesinf": "0*(1e308*10)",
+    "bigint": "1" + "0" * 310,
+    "negzero": "-0.0",
+    "subnormal": "5e-324",
+    "divzero": "1/0",
+    "modzero": "1 mod 0",
+    "roundneg": "5 round -3000000",
+    "roundpos": "5 round 3000000",
+    "powhuge": "2^99999999",
+    "deepparen": "(" * 400 + "1" + ")" * 400,
 }
+DATES = {"none": None, "iso": "2001-02-03", "far": "6000-01-01", "year1": "0001-01-01", "digits4": "1230", "word": "foo",
+         "relative": "-1 day", "epochbig": "99999999999", "datetime": "1970-01-01 00:00:00", "negative": "-5"}
+
+
+def mc_cfg(mode, nnames=1, arity=0, stride2=1, stride=1, phase=0, nformats=1, maxlex=1, maxdeep=0):
+    return MC_CFG % dict(mode=mode, nnames=nnames, arity=arity, stride2=stride2, stride=stride, phase=phase,
+                         nformats=nformats, maxlex=maxlex, maxdeep=maxdeep)
+
+
+def format_table():
+    """Every #time format code the running code knows."""
+    import mwlib.network.fetch  # noqa: F401
+    from mwlib.parser.templ import magic_time
+    return sorted(k for k in magic_time.CODENAMES if k != "xr")
+
+
+def time_text(code, pre, date):
+    f = ("xr" if pre == "xr" else "") + code
+    return "{{#time:%s}}" % f if DATES[date] is None else "{{#time:%s|%s}}" % (f, DATES[date])
 WATCHDOG_S = 60          # only for hangs; a normal call takes milliseconds
 # proportionality (measured, generous): a call with an inflated argument vs. its small twin
 OUT_C, OUT_K = 20, 4000            # len(output) <= OUT_C * len(arguments) + OUT_K
 STEP_RATIO, STEP_FLOOR = 50, 20000
-MEM_RATIO, MEM_FLOOR = 50, 2 * 1024 * 1024
+MEM_PER_CHAR, MEM_FLOOR = 40, 2 * 1024 * 1024   # peak(call) - peak(twin) <= max(MEM_FLOOR, MEM_PER_CHAR * len(arguments))
 
 
 def B(x):
     return "TRUE" if x else "FALSE"
 
 
-def vm_cfg(nt, limit, maxbody=2, swallow=2, dec=True, emit=True):
-    return VM_CFG % dict(nt=nt, maxbody=maxbody, limit=limit, swallow=swallow, dec=B(dec), emit=B(emit))
+def vm_cfg(nt, limit, maxbody=2, growth=False, swallow=2, dec=True, capbyname=True, emit=True):
+    return VM_CFG % dict(nt=nt, maxbody=maxbody, limit=limit, growth=B(growth), block=BLOCK, swallow=swallow, dec=B(dec),
+                         capbyname=B(capbyname), emit=B(emit))
 
 
 # ----------------------------------------------------------------------------- name table
@@ -102,13 +145,18 @@ def name_table(lang):
         if not n.startswith("_") and n.upper() == n and any(ch.isalpha() for ch in n):
             names.add(n)
     names.update(magic_nodes.registry.keys())
+    resolver = magics.MagicResolver()
     for mw in siteinfo.get_siteinfo(lang).get("magicwords", []):
+        hashed = "#" + mw["name"]
+        # the site lists parser functions without '#': the spelling with '#' is a name as well
+        # wherever the running code resolves it (registry node or resolver method)
+        with_hash = hashed in magic_nodes.registry or resolver.has_magic(hashed)
         for a in [mw["name"]] + list(mw["aliases"]):
             a = a.rstrip(":")
             if not a or any(ch in a for ch in "{}|=<>[]\n"):
                 continue
             names.add(a)
-            if not a.startswith("#") and not a.startswith("_"):
+            if with_hash and not a.startswith("#"):
                 names.add("#" + a)
     return sorted(names)
 
@@ -153,19 +201,31 @@ def errclass(err):
     return type(err).__name__
 
 
-def measure(db, text, mem=False, limit=None):
+class _NoSteps:
+    n = 0
+
+    def __enter__(self):
+        return self
+
+    def __exit__(self, *a):
+        return False
+
+
+def measure(db, text, mem=False, limit=None, steps=True):
     """One real expansion under the step counter and tracemalloc.
     -> dict(ok, out_len, steps, peak, err, where, cls)"""
     import tracemalloc
 
     from harness.templwiki import StepCounter, expand
     kw = {} if limit is None else {"recursion_limit": limit}
+    from mwlib.parser import expr as _expr
+    _expr._cache.clear()          # #expr memoises results per process: every case is measured cold
     r = {"ok": False, "out_len": 0, "steps": 0, "peak": 0, "err": None, "where": None, "cls": None, "count": None}
     if mem:
         tracemalloc.start()
     signal.signal(signal.SIGALRM, _alarm)
     signal.alarm(WATCHDOG_S)
-    sc = StepCounter()
+    sc = StepCounter() if steps else _NoSteps()
     try:
         with sc:
             out, e = expand(db, text, **kw)
@@ -194,7 +254,8 @@ def measure(db, text, mem=False, limit=None):
 def judge_call(lang, name, shapes, twin, db, cache):
     """-> list of (key, what, replay)"""
     text = call_text(name, shapes)
-    m = measure(db, text, mem=bool(twin))
+    # allocation is traced where a SHORT argument could buy it; an oversize text is allowed memory in proportion to its length
+    m = measure(db, text, mem=bool(twin) and any(s_ != "oversize" and t_ == "small" and s_ != "small" for s_, t_ in zip(shapes, twin)))
     fn = canonical(lang, name)
     rep = {"kind": "call", "lang": lang, "name": name, "shapes": shapes, "twin": twin, "text": text[:300]}
     out = []
@@ -204,7 +265,7 @@ def judge_call(lang, name, shapes, twin, db, cache):
                     "%s raised/failed: %s" % (text[:120], m["err"]), rep))
         return out
     if m["out_len"] > OUT_C * arglen + OUT_K:
-        out.append(("disproportionate fn=%s kind=output name=%s shapes=%s lang=%s" % (fn, name.upper(), ",".join(shapes), lang),
+        out.append(("disproportionate fn=%s kind=output shapes=%s name=%s lang=%s" % (fn, ",".join(shapes), name.upper(), lang),
                     "%s: %d characters of output for %d characters of arguments" % (text[:120], m["out_len"], arglen), rep))
     if twin:
         tk = (name, tuple(twin))
@@ -213,26 +274,52 @@ def judge_call(lang, name, shapes, twin, db, cache):
         t = cache[tk]
         if t["ok"]:
             if m["steps"] > STEP_FLOOR and m["steps"] > STEP_RATIO * max(1, t["steps"]) and m["steps"] > 40 * arglen:
-                out.append(("disproportionate fn=%s kind=work name=%s shapes=%s lang=%s" % (fn, name.upper(), ",".join(shapes), lang),
+                out.append(("disproportionate fn=%s kind=work shapes=%s name=%s lang=%s" % (fn, ",".join(shapes), name.upper(), lang),
                             "%s: %d call events, its small twin %s: %d" % (text[:120], m["steps"], call_text(name, twin)[:80], t["steps"]), rep))
-            if m["peak"] > MEM_FLOOR and m["peak"] > MEM_RATIO * max(1, t["peak"]) and m["peak"] > 20 * arglen:
-                out.append(("disproportionate fn=%s kind=allocation name=%s shapes=%s lang=%s" % (fn, name.upper(), ",".join(shapes), lang),
+            extra = m["peak"] - t["peak"] if m["peak"] else 0         # allocation attributable to the inflated argument
+            if extra > MEM_FLOOR and extra > MEM_PER_CHAR * arglen:
+                out.append(("disproportionate fn=%s kind=allocation shapes=%s name=%s lang=%s" % (fn, ",".join(shapes), name.upper(), lang),
                             "%s: peak %d bytes for %d characters of arguments, its small twin: %d bytes" % (text[:120], m["peak"], arglen, t["peak"]), rep))
     return out
 
 
+_DB = {}
+_TWINS = {}
+
+
+def site_db(scratch, lang):
+    """One archive per worker process and site."""
+    k = (os.getpid(), lang)
+    if k not in _DB:
+        from harness import templwiki
+        templwiki.quiet_logging()
+        _DB[k] = templwiki.make_wikidb(os.path.join(scratch, "site-%s-%d" % (lang, os.getpid())), {"Lc": "x"}, lang=lang)
+        measure(_DB[k], "{{#expr:1}}{{lc:A}}{{#time:Y}}", mem=True)   # warm-up: imports and caches are not charged to the first case
+    return _DB[k]
+
+
 def _call_worker(args):
     idx, lang, names, cases, scratch = args
-    from harness import templwiki
-    templwiki.quiet_logging()
-    path = os.path.join(scratch, "mc-%s-%d" % (lang, idx))
-    db = templwiki.make_wikidb(path, {"Lc": "x"}, lang=lang)
-    cache, bad, n = {}, [], 0
+    db = site_db(scratch, lang)
+    cache, bad, n = _TWINS.setdefault((os.getpid(), lang), {}), [], 0
     for c in cases:
         n += 1
         bad.extend(judge_call(lang, names[c["n"] - 1], c["s"], c["twin"], db, cache))
-    shutil.rmtree(path, ignore_errors=True)
     return n, bad
+
+
+def _time_worker(args):
+    idx, formats, cases, scratch = args
+    db = site_db(scratch, "en")
+    bad = []
+    for c in cases:
+        code = formats[c["f"] - 1]
+        text = time_text(code, c["pre"], c["date"])
+        m = measure(db, text)
+        if not m["ok"]:
+            bad.append(("expandTemplates %s %s fn=#TIME format=%s%s date=%s" % (m["cls"], m["where"], "xr" if c["pre"] == "xr" else "", code, c["date"]),
+                        "%s raised/failed: %s" % (text, m["err"]), {"kind": "time", "f": code, "pre": c["pre"], "date": c["date"]}))
+    return len(cases), bad
 
 
 def _junk_worker(args):
@@ -242,7 +329,7 @@ def _junk_worker(args):
     path = os.path.join(scratch, "junk-%d" % idx)
     tm = {}
     for c in cases:
-        c["text"] = "".join("Jt" if x == "T" else x for x in c["lex"])
+        c["text"] = "".join("Jt" if x == "T" else x for x in c["lex"]) * c.get("rep", 1)
         c["tname"] = "J" + hashlib.sha1(c["text"].encode()).hexdigest()[:12]
         tm[c["tname"]] = c["text"]
     tm["Jt"] = "t{{{1|d}}}"
@@ -251,29 +338,47 @@ def _junk_worker(args):
     for c in cases:
         for place, text in (("page", c["text"]), ("template", "a{{%s|x}}b" % c["tname"])):
             n += 1
-            m = measure(db, text)
+            m = measure(db, text, steps=False)
             if not m["ok"]:
-                bad.append(("expandTemplates %s %s junk=%s as=%s" % (m["cls"], m["where"], json.dumps(c["text"]), place),
-                            "%r as %s: %s" % (c["text"], place, m["err"]), {"kind": "junk", "lex": c["lex"]}))
+                bad.append(("expandTemplates %s %s junk=%s x%d as=%s" % (m["cls"], m["where"], json.dumps("".join(c["lex"])), c.get("rep", 1), place),
+                            "%r x%d as %s: %s" % ("".join(c["lex"]), c.get("rep", 1), place, m["err"]), {"kind": "junk", "lex": c["lex"], "rep": c.get("rep", 1)}))
             elif m["count"] != 0:
-                bad.append(("recursion_count=%s after junk=%s as=%s" % (m["count"], json.dumps(c["text"]), place),
-                            "counter not restored", {"kind": "junk", "lex": c["lex"]}))
+                bad.append(("recursion_count=%s after junk=%s x%d as=%s" % (m["count"], json.dumps("".join(c["lex"])), c.get("rep", 1), place),
+                            "counter not restored", {"kind": "junk", "lex": c["lex"], "rep": c.get("rep", 1)}))
     shutil.rmtree(path, ignore_errors=True)
     return n, bad
 
 
 # ---- TemplateVM replay
 ATOM = {"a": "a", "P": "{{{1}}}"}
+OUT_RX = re.compile(r'(a)|(\{\{\{1\}\}\})|(x{%d})|(<strong class="error">template argument too long: \d+ bytes</strong>)' % BLOCK)
+
+
+def project(text):
+    """The real output as atoms a / P / A (block) / E (inline error); None if it is anything else."""
+    out, pos = [], 0
+    for m in OUT_RX.finditer(text):
+        if m.start() != pos:
+            return None
+        pos = m.end()
+        out.append("aPAE"[m.lastindex - 1])
+    return out if pos == len(text) else None
 
 
 def vm_concretise(case):
     u = case["univ"]
     h = "V" + hashlib.sha1(json.dumps(u).encode()).hexdigest()[:10]
-    nm = {"C%d" % i: "%sT%d" % (h, i) for i in (1, 2, 3)}
+    nm = {"%d" % i: "%sT%d" % (h, i) for i in (1, 2, 3)}
+
+    def item(x):
+        if x in ATOM:
+            return ATOM[x]
+        n = nm[x[1]]
+        return {"C": "{{%s}}" % n, "D": "{{%s|{{{1}}}{{{1}}}}}" % n, "S": "{{%s|%s}}" % (n, "x" * BLOCK)}[x[0]]
 
     def text(body):
-        return "".join(ATOM[x] if x in ATOM else "{{%s}}" % nm[x] for x in body)
-    templates = {nm["C%d" % (i + 1)]: text(b) for i, b in enumerate(u)}
+        return "".join(item(x) for x in body)
+    templates = {nm["%d" % (i + 1)]: text(b) for i, b in enumerate(u)}
     return templates, text(case["page"]), nm
 
 
@@ -306,11 +411,11 @@ def _vm_worker(args):
 
 
 def vm_run(Logged, db, c, t, p, nm):
-    inv = {v: int(k[1:]) for k, v in nm.items()}
-    want_out = "".join(ATOM[x] for x in c["out"])
+    inv = {v: int(k) for k, v in nm.items()}
     want_log = [tuple(x) for x in c["log"]]
-    rep = {"kind": "vm", "case": c, "templates": t, "page": p}
-    key = "recursion guard limit=%d univ=%s page=%s" % (c["limit"], json.dumps(c["univ"]), json.dumps(c["page"]))
+    rep = {"kind": "vm", "case": c, "templates": t, "page": p if len(p) < 2000 else p[:200] + "..."}
+    # "argcap": the model predicts that an argument outgrows the 256 KiB cap and is reported inline
+    key = "recursion guard%s limit=%d univ=%s page=%s" % (" argcap" if "E" in c["out"] else "", c["limit"], json.dumps(c["univ"]), json.dumps(c["page"]))
     signal.signal(signal.SIGALRM, _alarm)
     signal.alarm(WATCHDOG_S)
     try:
@@ -326,8 +431,9 @@ def vm_run(Logged, db, c, t, p, nm):
     problems = []
     if not isinstance(got, str):
         problems.append("returned %r" % type(got))
-    elif got != want_out:
-        problems.append("output %r, the model predicts %r" % (got, want_out))
+    elif project(got) != c["out"]:
+        pr = project(got)
+        problems.append("output %s, the model predicts %r" % (repr(pr) if pr is not None else "(not over a/{{{1}}}/block/error) " + repr(got[:80]), c["out"]))
     if e.recursion_count != 0:
         problems.append("recursion_count=%r after the expansion" % e.recursion_count)
     got_log = [(inv.get(n, -1), k) for n, k in e.vlog]
@@ -361,50 +467,76 @@ def run(ctx):
 
     # ---- 1. recursion guard: model checking + replay
     vm_cases = []
-    vm_plans = [(2, 2), (2, 3), (2, 4)] if quick else [(2, 2), (2, 3), (2, 4), (3, 2), (3, 3), (3, 4)]
-    for nt, limit in vm_plans:
-        res = tlc.run(ctx, "TemplateVM", vm_cfg(nt, limit), name="TemplateVM_%d_%d" % (nt, limit), timeout=2400, heap="10g")
+    # (NT, Limit, Growth): Growth adds doubling calls and block arguments (argument size limit)
+    vm_plans = ([(2, 2, False), (2, 3, False), (2, 4, False), (1, 10, True)] if quick
+                else [(2, 2, False), (2, 3, False), (2, 4, False), (3, 2, False), (3, 3, False), (3, 4, False), (1, 10, True), (2, 10, True)])
+    # all TLC runs are started now, four at a time; the Python phases below take the results as they need them
+    from concurrent.futures import ThreadPoolExecutor
+    ex = ThreadPoolExecutor(max_workers=4)
+
+    def T(module, cfg, name, **kw):
+        kw.setdefault("timeout", 2400)
+        return ex.submit(tlc.run, ctx, module, cfg, name=name, workers=max(2, ctx.ncpu // 4), heap="6g", **kw)
+    langs = ["en"] if quick else ["en", "de", "fr", "ja", "es", "it", "nl", "pl", "pt", "sv", "no", "simple"]
+    f_vm = [T("TemplateVM", vm_cfg(nt, limit, growth=growth), "TemplateVM_%d_%d%s" % (nt, limit, "g" if growth else ""))
+            for nt, limit, growth in vm_plans]
+    f_cov = T("TemplateVM", vm_cfg(1, 10, growth=True, emit=False), "TemplateVM_cov", coverage=True)
+    nv_plans = (("SwallowDepth=0", dict(swallow=0), ("invariant", "NoEscape")),
+                ("Decrement=FALSE", dict(dec=False), ("invariant", "NoEscape")),   # the counter stays high: nobody swallows
+                ("CapByName=FALSE", dict(capbyname=False, growth=True, limit=10), ("invariant", "ArgBound")))
+    f_nv = [T("TemplateVM", vm_cfg(**dict(dict(nt=1, limit=2, emit=False), **kw)), "TemplateVM_nv%d" % i)
+            for i, (label, kw, want) in enumerate(nv_plans)]
+    tables, f_calls = {}, {}
+    for li, lang in enumerate(langs):
+        tables[lang] = name_table(lang)
+        full3 = (not quick) and lang == "en"
+        stride = 1000 if quick else (10 if full3 else 40)
+        stride2 = 40 if quick else (1 if full3 else 4)
+        f_calls[lang] = T("MagicCalls", mc_cfg("calls", nnames=len(tables[lang]), arity=3, stride=stride, stride2=stride2, phase=ctx.seed + li),
+                          "MagicCalls_%s" % lang)
+    formats = format_table()
+    f_time = T("MagicCalls", mc_cfg("time", nformats=len(formats)), "MagicCalls_time")
+    f_junk = T("MagicCalls", mc_cfg("junk", maxlex=3, maxdeep=2 if quick else 3), "MagicCalls_junk", coverage=True)
+    ex.shutdown(wait=False)
+
+    for (nt, limit, growth), fut in zip(vm_plans, f_vm):
+        res = fut.result()
         if not res.ok:
             ctx.machinery("reference spec TemplateVM (NT=%d Limit=%d) violates %s %s — a defect of the specification\n%s"
                           % (nt, limit, res.kind, res.name, res.out[-1500:]))
         states += res.distinct
         trans += res.generated
         vm_cases.extend(res.emitted)
-        ctx.note("TemplateVM NT=%d Limit=%d: %d states, %d terminal behaviours, TLC %.0fs" % (nt, limit, res.distinct, len(res.emitted), res.wall))
+        ctx.note("TemplateVM NT=%d Limit=%d" % (nt, limit) + (" growth" if growth else "") + ": %d states, %d terminal behaviours, TLC %.0fs" % (res.distinct, len(res.emitted), res.wall))
         res.out = ""
-    cov = tlc.run(ctx, "TemplateVM", vm_cfg(1, 2, emit=False), name="TemplateVM_cov", coverage=True, timeout=600)
+    cov = f_cov.result()
     missing = tlc.uncovered_actions(cov, VM_ACTIONS)
     if not cov.ok or missing:
         ctx.machinery("TemplateVM coverage run: ok=%s, actions never taken: %s" % (cov.ok, missing))
     nonvac = {}
-    for label, kw, want in (("SwallowDepth=0", dict(swallow=0), ("invariant", "NoEscape")),
-                            ("Decrement=FALSE", dict(dec=False), ("invariant", "NoEscape"))):   # the counter stays high: nobody swallows
-        r = tlc.run(ctx, "TemplateVM", vm_cfg(1, 2, emit=False, **kw), name="TemplateVM_nv", timeout=600)
+    for (label, kw, want), fut in zip(nv_plans, f_nv):
+        r = fut.result()
         nonvac[label] = [r.kind, r.name]
         if (r.kind, r.name) != want:
             ctx.machinery("non-vacuity: %s did not violate %s (got %s %s)" % (label, want[1], r.kind, r.name))
+    t_lap = time.time()
     n_vm, bad = pool_run(ctx, _vm_worker, [(i, ch, root) for i, ch in enumerate(chunks(vm_cases, ctx.ncpu * 2)) if ch])
     if n_vm != len(vm_cases):
         ctx.machinery("replayed %d of %d behaviours" % (n_vm, len(vm_cases)))
     allbad.extend(bad)
+    ctx.note("TemplateVM replay: %d behaviours in %.0fs" % (n_vm, time.time() - t_lap))
     deep = sum(1 for c in vm_cases if any(k > 2 for _, k in c["log"]))
     hit_limit = sum(1 for c in vm_cases if any(k == c["limit"] + 1 for _, k in c["log"]) or
                     (len(c["out"]) < sum(1 for x in c["page"] if x == "a")))
 
     # ---- 2. magic words / parser functions
-    langs = ["en"] if quick else ["en", "de", "fr", "ja", "es", "it", "nl", "pl", "pt", "sv", "no", "simple"]
     n_calls = 0
     names_total = 0
     samples = []
     for li, lang in enumerate(langs):
-        names = name_table(lang)
+        names = tables[lang]
         names_total += len(names)
-        full3 = (not quick) and lang == "en"
-        stride = 1 if full3 else (300 if quick else 10)
-        stride2 = 15 if quick else 1
-        res = tlc.run(ctx, "MagicCalls", MC_CFG % dict(mode="calls", nnames=len(names), arity=3, stride=stride, stride2=stride2,
-                                                       phase=ctx.seed + li, maxlex=1),
-                      name="MagicCalls_%s" % lang, timeout=2400, heap="10g")
+        res = f_calls[lang].result()
         if not res.ok:
             ctx.machinery("spec MagicCalls (%s) violates %s %s\n%s" % (lang, res.kind, res.name, res.out[-1200:]))
         states += res.distinct
@@ -412,8 +544,11 @@ def run(ctx):
         cases = res.emitted
         res.out = ""
         # interleave so that slow names are spread over the workers
-        jobs = [(i, lang, names, cases[i::ctx.ncpu * 2], root) for i in range(ctx.ncpu * 2) if cases[i::ctx.ncpu * 2]]
+        nj = ctx.ncpu * 12      # many small interleaved jobs: slow cases (oversize text, long loops) spread over the workers
+        jobs = [(i, lang, names, cases[i::nj], root) for i in range(nj) if cases[i::nj]]
+        t_lap = time.time()
         n, bad = pool_run(ctx, _call_worker, jobs)
+        ctx.note("MagicCalls %s executed in %.0fs" % (lang, time.time() - t_lap))
         if n != len(cases):
             ctx.machinery("executed %d of %d calls" % (n, len(cases)))
         n_calls += n
@@ -424,35 +559,57 @@ def run(ctx):
             samples.append({"lang": lang, "call": call_text(names[c["n"] - 1], c["s"])[:200]})
 
     # ---- 3. junk over the template alphabet
-    res = tlc.run(ctx, "MagicCalls", MC_CFG % dict(mode="junk", nnames=1, arity=0, stride=1, stride2=1, phase=0, maxlex=3),
-                  name="MagicCalls_junk", coverage=True, timeout=1200)
+    res = f_time.result()
+    if not res.ok:
+        ctx.machinery("spec MagicCalls (time) failed: %s %s" % (res.kind, res.name))
+    states += res.distinct
+    trans += res.generated
+    tcases = res.emitted
+    n_time, bad = pool_run(ctx, _time_worker, [(i, formats, tcases[i::ctx.ncpu], root) for i in range(ctx.ncpu) if tcases[i::ctx.ncpu]])
+    if n_time != len(tcases):
+        ctx.machinery("executed %d of %d #time cases" % (n_time, len(tcases)))
+    allbad.extend(bad)
+    ctx.note("MagicCalls time: %d format codes x 2 prefixes x %d dates = %d calls, %d disagreements" % (len(formats), len(DATES), n_time, len(bad)))
+
+    res = f_junk.result()
     if not res.ok or tlc.uncovered_actions(res, ["Hand"]):
         ctx.machinery("spec MagicCalls (junk) failed: %s %s" % (res.kind, res.name))
     states += res.distinct
     trans += res.generated
     junk = res.emitted
-    n_junk, bad = pool_run(ctx, _junk_worker, [(i, ch, root) for i, ch in enumerate(chunks(junk, ctx.ncpu * 2)) if ch])
+    t_lap = time.time()
+    nj = ctx.ncpu * 6
+    n_junk, bad = pool_run(ctx, _junk_worker, [(i, junk[i::nj], root) for i in range(nj) if junk[i::nj]])
+    ctx.note("junk executed in %.0fs" % (time.time() - t_lap))
+    ctx.note("MagicCalls junk: %d sequences (%d repeated 3000 times), %d disagreements" % (len(junk), sum(1 for j in junk if j["rep"] > 1), len(bad)))
     if n_junk != 2 * len(junk):
         ctx.machinery("executed %d of %d junk cases" % (n_junk, 2 * len(junk)))
     allbad.extend(bad)
 
+    classes = {}
+    for key, _, _ in allbad:
+        k = " ".join(key.split(" ")[:3])
+        classes[k] = classes.get(k, 0) + 1
+    for k in sorted(classes):
+        ctx.note("disagreement class: %s x%d" % (k, classes[k]))
     allbad.sort(key=lambda b: (len(b[0]), b[0]))
     unknown = 0
     for key, what, rep in allbad:
         if unknown < 25 and ctx.violation(key, what, rep):       # replay files for the 25 shortest unknown ones
             unknown += 1
-    ctx.set_cover(evaluations=n_vm + n_calls + n_junk,
-                  distinct_nontrivial=deep + n_calls + n_junk,
+    ctx.set_cover(evaluations=n_vm + n_calls + n_junk + n_time,
+                  distinct_nontrivial=deep + n_calls + n_junk + n_time, time_calls=n_time,
                   states=states, transitions=trans, traces_validated_against_impl=n_vm,
                   recursion_behaviours=n_vm, recursion_behaviours_nesting_deeper_than_2=deep,
                   recursion_behaviours_hitting_the_limit=hit_limit,
                   magic_calls=n_calls, magic_names=names_total, junk_cases=n_junk, disagreements=len(allbad),
                   action_coverage={a: cov.coverage[a] for a in VM_ACTIONS}, nonvacuity=nonvac, exhaustive=False,
                   rule="(1) every terminal behaviour of TemplateVM.tla (all call graphs on NT templates with bodies of <= 2 items, 33 pages, "
-                       "Limit in {2,3,4}; plans %r) replayed on the real Expander — non-trivial = nesting deeper than 2; (2) every call "
+                       "Limit in {2,3,4}, and with doubling calls / block arguments at Limit 10; plans %r as (NT, Limit, Growth)) replayed on the real Expander — non-trivial = nesting deeper than 2; (2) every call "
                        "TLC enumerates from MagicCalls.tla over the name table generated from the running code for sites %r (arity 0..2 "
-                       "complete in thorough; in quick arity 0..1 complete, arity 2 / 3 thinned by strides 15 / 300) — each is a distinct (name, shapes) input; (3) every "
-                       "sequence of <= 3 lexemes over the 23-lexeme template alphabet, as page and as template body" % (vm_plans, langs))
+                       "complete in thorough; in quick arity 0..1 complete, arity 2 / 3 thinned by strides 40 / 1000; thorough: en 1 / 10, other sites 4 / 40; 23 shapes = 10 base + 13 'arithmetic at the edges', at most one edge shape per tuple) — each is a distinct (name, shapes) input; (3) every "
+                       "sequence of <= 3 lexemes over the 23-lexeme template alphabet (those of <= 2 lexemes also repeated 3000 times), as page and as "
+                       "template body; (4) every #time format code of magic_time.CODENAMES, alone and behind 'xr', x 10 date shapes" % (vm_plans, langs))
     for c in vm_cases[:: max(1, len(vm_cases) // 2)][:2]:
         ctx.sample({"univ": c["univ"], "page": c["page"], "limit": c["limit"], "predicted_out": c["out"], "predicted_lookups": c["log"]})
     for s in samples:
@@ -460,7 +617,7 @@ def run(ctx):
     if junk:
         ctx.sample({"junk": "".join(junk[len(junk) // 3]["lex"])})
     ctx.assume("proportionality is measured, not modelled: output <= %d*len(arguments)+%d, call events and peak traced allocation "
-               "of an inflated call <= %dx its small twin (floors %d events / %d bytes)" % (OUT_C, OUT_K, STEP_RATIO, STEP_FLOOR, MEM_FLOOR),
+               "of an inflated call <= %dx its small twin (floor %d events) resp. twin + max(%d bytes, %d per argument character)" % (OUT_C, OUT_K, STEP_RATIO, STEP_FLOOR, MEM_FLOOR, MEM_PER_CHAR),
                "sys.setprofile call/c_call events and tracemalloc peaks are deterministic for a given input",
                "the huge number is 300000 and the exponent 1e5000000 (large enough to show disproportion, small enough not to exhaust the sandbox)",
                "the wiki database is a production archive (FsOutput + nuwiki.Adapt)")
@@ -477,7 +634,10 @@ def replay(ctx, path):
     if rp["kind"] == "vm":
         n, bad = _vm_worker((0, [rp["case"]], root))
     elif rp["kind"] == "junk":
-        n, bad = _junk_worker((0, [{"lex": rp["lex"]}], root))
+        n, bad = _junk_worker((0, [{"lex": rp["lex"], "rep": rp.get("rep", 1)}], root))
+    elif rp["kind"] == "time":
+        formats = format_table()
+        n, bad = _time_worker((0, formats, [{"f": formats.index(rp["f"]) + 1, "pre": rp["pre"], "date": rp["date"]}], root))
     else:
         names = name_table(rp["lang"])
         n, bad = _call_worker((0, rp["lang"], names, [{"n": names.index(rp["name"]) + 1, "s": rp["shapes"], "twin": rp["twin"]}], root))
